@@ -20,7 +20,7 @@ import sys
 VERIF = "/verif"
 REPO = "/repo"
 PY = "/venv/bin/python"
-ALL = ["C%02d" % i for i in range(1, 21) if i != 17]
+ALL = ["C%02d" % i for i in range(1, 21)]
 
 
 def sh(cmd, cwd=None, env=None, timeout=1800):
